@@ -12,15 +12,23 @@ import QV.Model.Front
 > outside the supported subset is rejected with an exception, never silently translated into a
 > different function.
 
-What is proved here (**partial**): the specification of the bit-vector library the translator is
-built from (`QV/Model/Arith.lean` = `qlasskit/types/qint.py`, `qtype.py`), for *all* widths, all bit
-expressions and all environments: `fill`, `crop`, `~`, `<<`, `>>`, `+`, `-`, `==`, `!=`, `>`, `<`, `<=`,
-`>=`, bitwise operators, and the tie of the comparator table of `translate_expression` to them.
-The statements are about the model with every listed defect repaired (`Quirks.none`); for the model of
-the code as it is they hold on the inputs that do not reach a listed defect (`*_partial`), and each
-listed defect has a witness.  NOT proved: the schoolbook multiplier (`mul_spec`), `mod`, and the
-translator theorem `C01_statement` itself (expressions/statements → library calls); those are tied to
-the code by the correspondence of `harness/c01.py` only.
+What is proved here (**partial**):
+
+* the specification of the bit-vector library the translator is built from (`QV/Model/Arith.lean` =
+  `qlasskit/types/qint.py`, `qtype.py`), for *all* widths, all bit expressions and all environments:
+  `fill`, `crop`, `~`, `<<`, `>>`, `+`, `-`, `*` (the schoolbook loop, `mul_spec`), `% 2^k`
+  (`mod_spec`), `==`, `!=`, `>`, `<`, `<=`, `>=`, bitwise operators, and the tie of the comparator
+  table of `translate_expression` to them.  The statements are about the model with every listed
+  defect repaired (`Quirks.none`, = the code since the `fix:` commits in /repo); for the model of the
+  code before them they hold on the inputs that do not reach a listed defect (`*_partial`), and each
+  listed defect has a witness;
+* the translator theorem for **expressions** over `bool` / `Qint` (`C01_expr`, `C01_expr_args`):
+  whatever `Front.tr` returns has, under every assignment, the value the Lean reference semantics
+  `QV.Sem.semW` (`QV/Model/Sem.lean`) gives the expression.
+
+NOT proved: the statement level of `C01_statement` (Assign / Return / the definition list), tuples,
+`Qchar`, subscripts, and `SemW = Sem` (exact python integers) on in-range inputs; those are tied to
+the code by the correspondence and the oracle of `harness/c01.py` only.
 -/
 namespace QV.C01
 open QV QV.Arith QV.Front
@@ -29,8 +37,12 @@ open QV QV.Arith QV.Front
 program on an assignment of its argument bits: for every return bit either the bit the python function
 returns, or `none` where nothing is claimed – an intermediate left its range and the bit is not a low
 bit determined by wrap-around arithmetic; `none` for the whole row when python raises) and a predicate
-`InSubset` (the documented subset).  The reference semantics is `harness/pysem.py`; it has no Lean
-definition, which is why this statement is **not** proved here. -/
+`InSubset` (the documented subset).  **Not proved.**  For the bool / Qint fragment the reference
+semantics now has a Lean definition (`QV.Sem.semProg`, compared with `harness/pysem.py` every run) and
+the expression level is proved (`C01_expr` below).  Missing for this statement: the induction over
+`trStmt` / `trBody` (that `Env.bind` + `decompose_to_symbols` keep `Sem.EnvOK` for the environment
+`runDefs` builds, and the `Return` coercion through `fill_spec` / `crop_spec`), every type other
+than bool / Qint, and the `none` = "nothing claimed" side (`SemW = Sem` under `inRange`). -/
 def C01_statement
     (SemW : Prog → (String → Bool) → Option (List (Option Bool)))
     (InSubset : Prog → Prop) : Prop :=
